@@ -328,7 +328,7 @@ func vfItem(name string, mode int, symbolic bool, L int) (interface{}, vfWant) {
 		}
 		return "v"
 	}
-	nk := 9
+	nk := 10
 	if mode == 2 {
 		nk = 2 // sequences: a string or nil
 	}
@@ -359,6 +359,8 @@ func vfItem(name string, mode int, symbolic bool, L int) (interface{}, vfWant) {
 		return i, vfWant{vfVal{1, ""}, false} // text filled in after rendering (the value is concrete by then)
 	case 5:
 		return "", vfWant{vfVal{0, ""}, true}
+	case 9: // a text that is not empty although it is zero cells wide on a terminal
+		return "\t", vfWant{vfVal{0, "\t"}, false}
 	}
 	s := str()
 	var item interface{} = vfStringer{s}
